@@ -461,6 +461,13 @@ def b_hasattr(I, args, kw):
         return name in ("__name__", "__call__")
     if hasattr(v, "sym_hasattr"):
         return v.sym_hasattr(I, name)
+    if hasattr(v, "sym_getattr"):
+        try:
+            return v.sym_getattr(I, name) is not NotImplemented
+        except PyRaise as pr:
+            if pr.exc.cls_name == "AttributeError":
+                return False
+            raise
     raise Unsupported("hasattr on " + type(v).__name__)
 
 
